@@ -40,8 +40,10 @@ COQ = os.path.join(os.path.dirname(os.path.dirname(os.path.abspath(__file__))), 
 
 
 def gen_functions():
-    """T-tie: the straight-line functions of src/Statistics.cpp that are regenerated from clang's AST on every run
-    (coq/Gen_C07_Formulas.v) and proved equal to the hand model in coq/C07_GenTie.v"""
+    """T-tie: the functions of src/Statistics.cpp sections 1 and 2 that are regenerated from clang's AST on every run
+    (coq/Gen_C07_Formulas.v) and proved equal to the hand model in coq/C07_GenTie.v: the 14 straight-line ones through the
+    shared translator's subset, and (tools/cxx2gallina_C07.py: counted for-loops as the fold combinators g_for / g_forp,
+    std::vector / std::pair parameters) PDF_Gauss_2D, CDF_Binomial, PMF_Poisson, PDF/CDF_Chi_Bar_Square and the four likelihoods"""
     import cxx2gallina as c
     F, E, d = c.Fn, c.Ext, "double"
     fns = [F("PDF_Uniform", [d] * 3, "g_PDF_Uniform"), F("CDF_Uniform", [d] * 3, "g_CDF_Uniform"),
@@ -50,19 +52,26 @@ def gen_functions():
            F("CDF_Poisson", [d, "uint"], "g_CDF_Poisson"), F("Inv_CDF_Poisson", ["uint", d], "g_Inv_CDF_Poisson"),
            F("PDF_Chi_Square", [d] * 2, "g_PDF_Chi_Square"), F("CDF_Chi_Square", [d] * 2, "g_CDF_Chi_Square"),
            F("PDF_Exponential", [d] * 2, "g_PDF_Exponential"), F("CDF_Exponential", [d] * 2, "g_CDF_Exponential"),
-           F("PDF_Maxwell_Boltzmann", [d] * 2, "g_PDF_Maxwell_Boltzmann"), F("CDF_Maxwell_Boltzmann", [d] * 2, "g_CDF_Maxwell_Boltzmann")]
+           F("PDF_Maxwell_Boltzmann", [d] * 2, "g_PDF_Maxwell_Boltzmann"), F("CDF_Maxwell_Boltzmann", [d] * 2, "g_CDF_Maxwell_Boltzmann"),
+           # loops, vectors, pairs (tools/cxx2gallina_C07.py)
+           F("PDF_Gauss_2D", [d, d, "paird", "paird"], "g_PDF_Gauss_2D"),
+           F("CDF_Binomial", ["uint", d, "uint"], "g_CDF_Binomial"), F("PMF_Poisson", [d, "uint"], "g_PMF_Poisson"),
+           F("PDF_Chi_Bar_Square", [d, "vecd"], "g_PDF_Chi_Bar_Square"), F("CDF_Chi_Bar_Square", [d, "vecd"], "g_CDF_Chi_Bar_Square"),
+           F("Log_Likelihood_Poisson", [d, "uint", d], "g_Log_Likelihood_Poisson"), F("Likelihood_Poisson", [d, "uint", d], "g_Likelihood_Poisson"),
+           F("Log_Likelihood_Poisson_Binned", ["vecd", "vecu", "vecd"], "g_Log_Likelihood_Poisson_Binned"),
+           F("Likelihood_Poisson_Binned", ["vecd", "vecu", "vecd"], "g_Likelihood_Poisson_Binned")]
     exts = [E("GammaQ", [d, d], "gammaQ"), E("GammaP", [d, d], "gammaP"), E("Inv_GammaQ", [d, d], "inv_gammaQ"),
             E("GammaLn", [d], "gammaLn"), E("Inv_Erf", [d], "inv_erf"), E("Binomial_Coefficient", ["int", "int"], "binom")]
     return fns, exts
 
 
 def regenerate():
-    import cxx2gallina as c
+    import cxx2gallina as c, cxx2gallina_C07 as c7
     fns, exts = gen_functions()
     try:
-        txt = c.translate_all(os.path.join(vbuild.REPO, "src", "Statistics.cpp"), fns, [os.path.join(vbuild.REPO, "include")], exts, True)
+        txt = c7.translate_all(os.path.join(vbuild.REPO, "src", "Statistics.cpp"), fns, [os.path.join(vbuild.REPO, "include")], exts, True)
     except c.Unsupported as e:
-        raise RuntimeError(f"tools/cxx2gallina.py cannot translate src/Statistics.cpp: {e}")
+        raise RuntimeError(f"tools/cxx2gallina_C07.py cannot translate src/Statistics.cpp: {e}")
     ch = c.write_if_changed(os.path.join(COQ, "Gen_C07_Formulas.v"), txt)
     return "Gen_C07_Formulas.v regenerated from the current source" if ch else ""
 EPS = 2.0 ** -53
@@ -105,6 +114,7 @@ LEVEL_TEXT = (
     "150-row table is accepted exactly for xMin < xMax, xMax <= xMin terminates the process, the sort returns an ascending permutation of the sample (C07_kde_table_accepted_and_offset, which removes the 'or Exit' alternative of C07_kde_table_partial); a common offset of sample and window "
     "moves the abscissae and leaves all 150 tabulated ordinates unchanged, automatic or manual bandwidth, pseudo data included (same theorem, over the reals: the rounding effects of far windows remain S4 territory); samples without spread get the automatic bandwidth 0 "
     "(same theorem: the premise of known finding K-C07-2). "
+    "Seventh pass, T-tie: 23 functions of src/Statistics.cpp sections 1 and 2 are no longer tied to the code by the correspondence run alone: on every run coq/Gen_C07_Formulas.v is regenerated from clang's AST of the current source (tools/cxx2gallina.py for the 14 straight-line ones: PDF/CDF_Uniform, PDF/CDF/Quantile_Gauss, PMF_Binomial, CDF/Inv_CDF_Poisson, PDF/CDF_Chi_Square, PDF/CDF_Exponential, PDF/CDF_Maxwell_Boltzmann; tools/cxx2gallina_C07.py for PDF_Gauss_2D (std::pair parameters) and the functions with counted loops over unsigned counters and std::vector arguments: CDF_Binomial, PMF_Poisson, PDF/CDF_Chi_Bar_Square, (Log_)Likelihood_Poisson, (Log_)Likelihood_Poisson_Binned, whose loops become the fold combinators g_for/g_forp with fuel = the trip count computed from the source bounds), and coq/C07_GenTie.v proves each generated term equal to the hand model for all arguments, in every arithmetic satisfying the literal laws LitLaws (the reals do: ROps_LitLaws), the loops by induction for every trip count / vector length (C07_generated_closed_forms_are_model, C07_generated_loops_are_model).  A changed formula, comparison, guard, literal, operand order, loop bound, start index or index expression in one of these functions breaks a proof obligation before any case is run (tried: PDF_Exponential times 1.001 breaks tie_PDF_Exponential; the CDF_Binomial loop bound i <= x changed to i < x breaks tie_CDF_Binomial; both also found by S4 with a failing input).  C07_generated_binomial_cdf_difference_is_sum states the interval clause, monotonicity over any number of steps and the range [0,1] directly about the generated CDF_Binomial / PMF_Binomial terms. Not regenerated (hand model + correspondence only): Perform_KDE (sort, data-dependent pseudo data, Interpolation constructor) and Inv_Erf (a lambda handed to Find_Root). In the double instance the literal laws are not a Coq theorem (that instance exists only in OCaml): there the hand model, not the generated term, is what the correspondence run compares with the library. "
     "NOT theorems: that Find_Root meets its request (C02), numeric agreement of GammaQ/GammaP/GammaLn/Inv_GammaQ/"
     "Binomial_Coefficient with the functions they approximate (C06/C02), and the KDE's normalisation (it divides by an approximate Simpson integral; S4 integrates the returned cubic segments exactly and allows 1e-6 plus the rounding of the abscissae, ulp(x)/2 times the total variation of the estimate, which matters only for windows 1e9 or more widths away from the origin) — these are "
     "S4 predicates on the implementation for every generated case. Correspondence: all closed forms, sums, likelihoods are run model-vs-C++ (bit-identical); "
@@ -113,9 +123,10 @@ LEVEL_TEXT = (
     "the model hands over at -10, 0, 10, so the request is compared as well), with S4 predicates erf(Inv_Erf(p)) = p to 2/sqrt(pi) 1e-4, the +-10 conventions and the exits; Perform_KDE's table is compared up to its one normalisation factor.")
 LEVEL_NOTE = ("Coq 8.16.1 kernel, Coquelicot; erf is defined as 2/sqrt(PI) RInt exp(-t^2) 0 x; M_PI is a model parameter (PI in the theorems, the double in the run); "
               "GammaQ, GammaP, Inv_GammaQ, GammaLn, Inv_Erf, Binomial_Coefficient are model parameters whose needed properties are explicit hypotheses (Inv_Erf is also modelled itself, with Find_Root as its parameter); "
-              "std::sort modelled by insertion sort (specification); Interpolation/Integrate inside Perform_KDE are not modelled (C01/C03/C08)")
+              "std::sort modelled by insertion sort (specification); Interpolation/Integrate inside Perform_KDE are not modelled (C01/C03/C08); T-tie: tools/cxx2gallina.py + tools/cxx2gallina_C07.py regenerate coq/Gen_C07_Formulas.v from clang's AST of src/Statistics.cpp before the proofs are rebuilt (23 functions; the translators, clang's AST and the reading of unsigned arithmetic below 2^31 as Z are trusted; diagnostics written to std::cerr are skipped); the ties are proved under LitLaws (literal = num/den), which holds in the reals; coverage/C07.md lists function by function what is generated, hand-modelled, modelled by specification or not modelled")
 TOL = (1e-13, 0.0)
-TRUSTED = ["std::sort is modelled by its specification (ascending by value; generated samples with equal values carry equal weights)",
+TRUSTED = ["T-tie: clang's JSON AST and the translators tools/cxx2gallina.py / tools/cxx2gallina_C07.py (counted for-loops -> g_for/g_forp with the trip count as fuel, v[i] -> nth, std::pair -> pair, M_PI -> pi_c, std::cerr statements skipped) are trusted to render the 23 regenerated functions of src/Statistics.cpp faithfully; the equality generated term = hand model is a Coq theorem under LitLaws (true in the reals; in doubles a literal is the correctly rounded quotient num/den, which is not proved in Coq)",
+           "std::sort is modelled by its specification (ascending by value; generated samples with equal values carry equal weights)",
            "the oracle pass: harness ops d_gammaQ/d_gammaP/d_inv_gammaQ/d_gammaLn/d_inv_erf/d_binom/d_find_root return the library's own values, which the model driver looks up by bit-identical arguments"]
 ASSUMPTIONS = ["unsigned arguments are generated below 2^31", "KDE samples have positive weights and at least half of them lie inside the window"]
 
@@ -838,6 +849,43 @@ def gen_chibar_large(rng, n, cap):
     return out
 
 
+def gen_scale_ladder(rng, n):
+    """scale families (normal mu/sigma, exponential mean, Maxwell-Boltzmann a, uniform limits): the scale parameter over 12 decades
+    (exact powers of ten and log-uniform 1e-6..1e6) combined with the REDUCED argument z = (x - location)/scale on a log ladder from 1e-8
+    (two rungs per decade, jittered) up into the far tail; at every rung a short flagged interval [z, z(1+d)] (d in 0.02..1, at most 0.4 wide
+    in reduced units), so that 'CDF difference = integral of the density' is evaluated relative to the difference itself at every magnitude
+    of the reduced argument, and the sorted rungs give the monotonicity of the CDF across every decade of z for every decade of the scale"""
+    out = []
+    def scale(): return 10.0 ** rng.randint(-6, 6) if rng.random() < 0.5 else logu(rng, 1e-6, 1e6)
+    def rungs(zmax):
+        zs = []; e = -8.0
+        while 10.0 ** e < zmax:
+            zs.append(min(zmax, 10.0 ** (e + rng.uniform(0, 0.5)))); e += 0.5
+        return zs
+    def pairs(zs): return [(z, z + min(rng.choice([0.02, 0.1, 0.3, 1.0, rng.uniform(0.02, 1.0)]) * z, 0.4)) for z in zs]
+    for _ in range(n):
+        s = scale()
+        ps = [(lo * s, hi * s, 1) for lo, hi in pairs(rungs(45.0))] + [(0.0, 10.0 ** rng.uniform(-8, -1) * s, 1)]
+        out.append(Proto(f"mb {hx(s)} {pairs_txt(ps)}", (), ("mb", "scale-ladder")))
+        s = scale()
+        ps = [(lo * s, hi * s, 1) for lo, hi in pairs(rungs(800.0))] + [(0.0, 10.0 ** rng.uniform(-8, -1) * s, 1)]
+        out.append(Proto(f"expo {hx(s)} {pairs_txt(ps)}", (), ("expo", "scale-ladder")))
+        s = scale(); mu = rng.choice([0.0, 0.0, s * rng.uniform(-3, 3), rng.choice([-1, 1]) * logu(rng, 1e-3, 1e3) * s])
+        ps = []
+        for lo, hi in pairs(rungs(40.0)):
+            ps.append((mu + lo * s, mu + hi * s, 1) if rng.random() < 0.5 else (mu - hi * s, mu - lo * s, 1))
+        ps = [(a, b, f) for a, b, f in ps if a < b]
+        out.append(Proto(f"gauss {hx(mu)} {hx(s)} {pairs_txt(ps)}", (), ("gauss", "scale-ladder")))
+        w = scale(); a = rng.choice([0.0, 0.0, w * rng.uniform(-3, 3), -w / 2]); b = a + w
+        if not b > a: continue
+        w = b - a; ps = []
+        for lo, hi in pairs(rungs(1.0)):
+            q = (a + lo * w, min(b, a + hi * w), 1) if rng.random() < 0.5 else (max(a, b - hi * w), b - lo * w, 1)
+            if a <= q[0] < q[1] <= b: ps.append(q)
+        out.append(Proto(f"uniform {hx(a)} {hx(b)} {pairs_txt(ps)}", (), ("uniform", "scale-ladder")))
+    return out
+
+
 def gen_whole_support(rng, n):
     """the mass functions over their whole range of counts in one run of calls: Poisson k = 0..500, binomial k = 0..trials+1"""
     out = []
@@ -880,6 +928,8 @@ def generate(rng, tier):
     protos += gen_kde_far(rng, 120 if big else 24, 150 if big else 40)
     # Inv_Erf with Find_Root as the oracle (fourth pass; drawn last)
     protos += gen_inverf(rng, 60 * f)
+    # scale x reduced-argument ladders of the four scale families (seventh pass; drawn last)
+    protos += gen_scale_ladder(rng, 25 * f)
     return resolve(protos)
 
 
@@ -974,7 +1024,12 @@ def pred_scan(op, t, head, extra, out):
                 rel = 1e-9
                 if op == "gauss": rel += 16 * EPS * (abs(par[0]) + abs(hi)) / par[1] * (abs(hi - par[0]) / par[1] + 1)
                 clamped = op == "chibar" and (ch == 1.0 or cl == 1.0) and math.fsum(par) > 1 - 1e-12
-                if not clamped and not abs((ch - cl) - integ) <= 2 * acc + rel * abs(integ) + 4 * EPS + rslack(lo) + rslack(hi):
+                # absolute part: families whose CDF is formed against a term of size 1 (1 - exp, 0.5 (1 + erf), the gamma functions) carry an absolute
+                # error of a few eps however small the value; Maxwell-Boltzmann is a difference of two terms of size 0.8 x/a (rslack: 64 eps times their
+                # sum) and has no absolute error of its own: 8 eps relative to the two values for the remaining operations.  So the comparison is
+                # relative to the difference itself wherever the formula allows it, at every magnitude of x/a
+                base = 8 * EPS * (abs(cl) + abs(ch)) if op == "mb" else 2 * acc + 4 * EPS
+                if not clamped and not abs((ch - cl) - integ) <= base + rel * abs(integ) + rslack(lo) + rslack(hi):
                     out.append((op + ":cdf-difference" + br, f"CDF({hi!r}) - CDF({lo!r}) = {ch-cl!r} but the integral of the density over the interval is {integ!r} (parameters {par[:4]})"))
                 if any(not v >= 0 for v in nodes): out.append((op + ":pdf-nonneg", f"density negative or NaN inside [{lo!r},{hi!r}]"))
     for x, p, c in pts:
